@@ -161,12 +161,13 @@ def run(model, col, tier):
         mt = model.cls(TYPES, "MatrixType")
         minit = mt.own_method("__init__")
         tup = [n for n in ast.walk(minit) if isinstance(n, ast.Tuple) and len(n.elts) == 2]
-        col.check(any([unparse(e) for e in t.elts] == ["rows", "columns"] for t in tup), "R13.2", f"{TYPES}::MatrixType size tuple", "size = (rows, columns)",
+        mparams = [a.arg for a in minit.args.args]  # (self, componentType, rows, columns)
+        col.check(len(mparams) == 4 and any([unparse(e) for e in t.elts] == mparams[2:4] for t in tup), "R13.2", f"{TYPES}::MatrixType size tuple", "size = (rows, columns)",
                   "MatrixType no longer stores (rows, columns): GetSize()[0] is not the row count", TYPES, minit)
         col.check("GetColumnCount()" in unparse(ctf) and "VectorType" in unparse(ctf), "R13.2", f"{CT}::_ProcessExpression matrix row type",
                   "indexing a matrix gives a vector of GetColumnCount() components", None, CT, ctf)
         at = model.cls(TYPES, "ArrayType").own_method("__init__")
-        col.check("tuple(arraySize)" in unparse(at), "R13.2", f"{TYPES}::ArrayType keeps dimension order", "sizes are stored in declaration order", None, TYPES, at)
+        col.check(f"tuple({at.args.args[2].arg})" in unparse(at), "R13.2", f"{TYPES}::ArrayType keeps dimension order", "sizes are stored in declaration order", None, TYPES, at)
         asd = [P for P in G.productions if P.name == "array_size_declaration_list" and len(P.syms) == 2]
         for P in asd:
             st, pn = select_stmts(P.func, 2)
